@@ -261,6 +261,9 @@ def one(rec, hub, seed, tier, kind, i):
         drv.do_errors(hub, U, sub, rng)
 
 
+M15C = "result-independence"
+
+
 def noop_requests(rec, hub, rng, i):
     """requests that leave nothing to compute - sums over dimensions with a single item or over no dimension at all, a cast to the
     dimensions the array already has (in its own or another order), a slice that selects every item, shares over single-item dimensions,
@@ -293,6 +296,33 @@ def noop_requests(rec, hub, rng, i):
             except Exception:
                 pass
     rec.event("noop-requests", sig=f"{lens}|{order}", cls=f"noop|{len(ones)} single-item dims of {len(order)}")
+    # a key used on an array, then a copy of the array taken and the SAME key used on the copy first thing (read, then write): the copy
+    # is written, the original is not (and the other way round)
+    import copy as _copy
+
+    if many:
+        l_k = many[0]
+        it_k = U[l_k].items[int(rng.integers(0, len(U[l_k].items)))]
+        for key in (it_k, (it_k,), {l_k: it_k}, {U[l_k].name: it_k}):
+            for how, mk in (("copy()", lambda a_: a_.copy()), ("copy.deepcopy", _copy.deepcopy), ("model_copy(deep=True)", lambda a_: a_.model_copy(deep=True))):
+                a_ = fd.FlodymArray(dims=gen.dimset(fd, U, order), values=gen.values_one("dyadic", rng, gen.shape_of(U, order)) + 1.0)
+                try:
+                    a_[key]
+                    if rng.random() < 0.5:
+                        a_[key] = 2.5
+                    b_ = mk(a_)
+                    before_a = np.array(a_.values, copy=True)
+                    b_[key]
+                    b_[key] = -99.0
+                    rec.event("noop-requests", sig=f"copy-then-same-key|{how}|{type(key).__name__}", cls=f"same key on a fresh copy|{how}|{type(key).__name__} key")
+                    if not np.array_equal(before_a, a_.values):
+                        rec.violation(M15C, "write-through-a-key-into-a-copy-changed-the-original", {"how": how, "key": repr(key)[:80], "dims": order}, prop="C15")
+                    before_b = np.array(b_.values, copy=True)
+                    a_[key] = 77.0
+                    if not np.array_equal(before_b, b_.values):
+                        rec.violation(M15C, "write-through-a-key-into-the-original-changed-its-copy", {"how": how, "key": repr(key)[:80], "dims": order}, prop="C15")
+                except Exception:
+                    continue
 
 
 def run(rec, hub, tier, seed, shard, nshards, budget):
